@@ -214,7 +214,8 @@ def translate(ra, dec, r, theta):
     factor += np.cos(np.radians(dec)) \
             * np.sin(np.radians(r)) \
             * np.cos(np.radians(theta))
-    dec_out = np.degrees(np.arcsin(factor))
+    # rounding can leave |factor| one ulp above 1 when the destination is a pole
+    dec_out = np.degrees(np.arcsin(np.clip(factor, -1, 1)))
 
     # cos(r) - sin(dec)sin(dec_out) = cos(dec) * x, written without the
     # cancellation that loses the direction when starting at a pole
